@@ -24,7 +24,10 @@ W1 == TLit(VNat(1), <<49>>)
 W3 == TLit(VNat(3), <<51>>)
 WX == TId(<<120>>)
 W2e == TId(<<50, 101>>)                          \* "2e": an identifier that is the head of a three-piece float
-WS == TLit(VStr(<<97>>), <<34, 97, 34>>)
+\* a string literal whose body ENDS IN AN ESCAPED BACKSLASH ("a\\"): a scanner that decides "is this quote escaped?" by looking at
+\* one preceding character instead of the parity of the backslash run takes the closing quote for an escaped one, and every
+\* comment after it is then inside / outside a string for it
+WS == TLit(VStr(<<97, 92>>), <<34, 97, 92, 92, 34>>)
 \* a decimal word just beyond the i64 range: what it denotes is not claimed (C06), but C07 is relational - its meaning must
 \* not depend on the separators around it either (e.g. a sign glued to it must stay a prefix operator)
 WBig == TLit(VFloat(<<17376, 0, 0, 0>>), <<57, 50, 50, 51, 51, 55, 50, 48, 51, 54, 56, 53, 52, 55, 55, 53, 56, 48, 56>>)
